@@ -31,7 +31,19 @@ from pathlib import Path
 from harness import common
 
 NAMES = ["a", "b", "xtb", "step2", "c_d"]
-FILES = ["in.txt", "data.bin", "r.dat", "copy.txt", "res.out2", "env.txt", "x.y.z", "Ünï.txt"]
+FILES = ["in.txt", "data.bin", "r.dat", "copy.txt", "res.out2", "env.txt", "x.y.z", "Ünï.txt",
+         "sub/r.bin", "other/r.bin", "a/b/c.txt", "a/r.dat", "sub/deep/er/r.bin"]      # (the first 8 are flat names)
+SH = None            # absolute path of the shell that interprets the scripted commands (the job may set any PATH)
+
+
+def spell(rng, f):
+    """another spelling of the same relative path, as a caller may write it in return_files"""
+    k = rng.below(4)
+    return f if k < 2 else "./" + f if k == 2 else f.replace("/", "//", 1) if "/" in f else "./" + f
+
+
+def norm(f: str) -> str:
+    return str(Path(f))
 VARS = ["C17_A", "C17_B", "OMP_NUM_THREADS"]
 
 
@@ -403,7 +415,7 @@ def gen_run_scenario(rng, quick):
     rng.shuffle(names)
     infiles = {}
     for _ in range(rng.range(0, 3)):
-        fn = rng.choice(FILES[:3] + FILES[6:])
+        fn = rng.choice(FILES[:3] + FILES[6:8])      # input files have flat names
         kind = rng.choice(["text", "bin"])
         infiles[fn] = {"kind": kind, "data": gen_content(rng, kind) if kind == "text" else gen_content(rng, kind).hex()}
     envars = {v: f"job-{v}" for v in VARS if rng.chance(1, 3)}
@@ -422,6 +434,11 @@ def gen_run_scenario(rng, quick):
                 kind = rng.choice(["text", "bin"])
                 data = gen_content(rng, kind)
                 effects.append(["w", fn, (data.encode() if kind == "text" else data).hex()])
+                if "/" in fn and rng.chance(1, 2):      # the same base name in another directory, other content
+                    twin = rng.choice([f for f in FILES if f != fn and f.rsplit("/", 1)[-1] == fn.rsplit("/", 1)[-1]] or [fn])
+                    if twin != fn:
+                        effects.append(["w", twin, (b"twin:" + twin.encode()).hex()])
+                        created.add(twin)
                 created.add(fn)
             elif k == "c":
                 srcs = sorted(created) + caps + ["nosuch.txt"]
@@ -453,20 +470,30 @@ def gen_run_scenario(rng, quick):
         created.add("env.txt")
     rstyle = rng.weighted([("some", 6), ("empty", 1), ("none", 1)])
     if rstyle == "some":
-        pool = sorted(created) + ["missing.dat", "never.txt"] + caps[:2]
-        ret = []
-        for _ in range(rng.range(1, 4)):
-            f = rng.choice(pool)
-            if f not in ret:
-                ret.append(f)
+        pool = sorted(created) + ["missing.dat", "never.txt", "sub/missing.bin"] + caps[:2]
+        nested = [f for f in pool if "/" in f]
+        ret, seen = [], set()
+        for k in range(rng.range(1, 5)):
+            f = rng.choice(nested) if nested and k == 0 and rng.chance(2, 3) else rng.choice(pool)
+            if f not in seen:
+                seen.add(f)
+                ret.append(spell(rng, f))
     else:
         ret = [] if rstyle == "empty" else None
-    if probe and ret is not None and "env.txt" not in ret:
+    if probe and ret is not None and "env.txt" not in [norm(f) for f in ret]:
         ret.append("env.txt")
     return {"section": "run", "jid": rng.choice(["job", "mol_1", "x"]), "files": infiles, "envars": envars, "base": base,
             "cmds": cmds, "ret": ret, "scratch_entries": rng.choice([[], ["keep.txt"], ["keep.txt", "other_dir"]]),
             "paths": {"inp": rng.choice(["abs", "rel"]), "out": rng.choice(["abs", "rel"]), "scr": rng.choice(["abs", "rel"]),
                       "cwd": rng.choice(["base", "sub", "elsewhere"])}}
+
+
+def shell() -> str:
+    global SH
+    if SH is None:
+        import shutil
+        SH = shutil.which("sh") or "/bin/sh"
+    return SH
 
 
 def build_job(scen, trace: Path):
@@ -480,18 +507,20 @@ def build_job(scen, trace: Path):
         if c["err"]:
             parts.append(octal(c["err"].encode()) + " >&2")
         for e in c["effects"]:
+            tgt = e[2] if e[0] in ("c", "e") else e[1]
+            mk = f"mkdir -p {shlex.quote(os.path.dirname(tgt))}; " if "/" in tgt and e[0] != "r" else ""
             if e[0] == "w":
-                parts.append(f"{octal(bytes.fromhex(e[2]))} > {shlex.quote(e[1])}")
+                parts.append(f"{mk}{octal(bytes.fromhex(e[2]))} > {shlex.quote(e[1])}")
             elif e[0] == "c":
-                parts.append(f"if [ -f {shlex.quote(e[1])} ]; then cat {shlex.quote(e[1])} > {shlex.quote(e[2])}; fi")
+                parts.append(f"if [ -f {shlex.quote(e[1])} ]; then {mk}cat {shlex.quote(e[1])} > {shlex.quote(e[2])}; fi")
             elif e[0] == "r":
                 parts.append(f"rm -f {shlex.quote(e[1])}")
             else:
-                parts.append(f"printf '%s' \"${e[1]}\" > {shlex.quote(e[2])}")
+                parts.append(f"{mk}printf '%s' \"${e[1]}\" > {shlex.quote(e[2])}")
         if c["code"] < 0:
             parts.append(f"ulimit -c 0; kill -{-c['code']} $$; sleep 5")     # the shell kills itself
         parts.append(f"exit {c['code'] if c['code'] >= 0 else 0}")
-        commands.append((shlex.join(["sh", "-c", "; ".join(parts)]), c["name"]))
+        commands.append((shlex.join([shell(), "-c", "; ".join(parts)]), c["name"]))
     files = {fn: (f["data"] if f["kind"] == "text" else bytes.fromhex(f["data"])) for fn, f in scen["files"].items()}
     kw = {}
     if scen["ret"] is not None:
@@ -645,7 +674,7 @@ def clean_scenario(scen) -> bool:
 
 def oracle_run(ctx, scen, obs, tag):
     fs, ran, failed = simulate(scen)
-    req = scen["ret"] or []
+    req = [norm(f) for f in (scen["ret"] or [])]      # the runner names returned files by their normalised relative path
     if obs["timeout"]:
         ctx.violation("C17:runner-hung", "run_local did not finish within the hard timeout", tag)
         return
@@ -764,6 +793,252 @@ def check_running(ctx, n_cases, n_entry, corpus):
     ctx.extra_cov["runs"] = len(reqs)
 
 
+# --------------------------------------------------------------------------------------
+# Part 3: which program a command starts
+# --------------------------------------------------------------------------------------
+TOOL = "c17tool"
+
+
+def install_tools(ctx):
+    """the same bare program name in two absolute directories (prints A / B)"""
+    out = {}
+    for tag in ("a", "b"):
+        d = ctx.scratch / "tools" / tag
+        d.mkdir(parents=True, exist_ok=True)
+        f = d / TOOL
+        f.write_text(f"#!/bin/sh\necho {tag.upper()}\n")
+        f.chmod(0o755)
+        out[tag.upper()] = str(d)
+    return out
+
+
+def gen_lookup(rng, dirs):
+    sysdirs = "/usr/bin:/bin"
+    ta, tb = dirs["A"], dirs["B"]
+    job_path = rng.choice([f"{tb}:{ta}:{sysdirs}", f"{ta}:{tb}:{sysdirs}", f"rel:{ta}:{sysdirs}", f":{ta}:{sysdirs}", "", f"{tb}", None,
+                           f"/nonexistent:{tb}:{ta}", f"{tb}::{ta}"])
+    base_path = rng.choice([f"{ta}:{os.environ.get('PATH', sysdirs)}", f"{tb}:{os.environ.get('PATH', sysdirs)}"])
+    progs = [rng.choice([TOOL, TOOL, TOOL, f"rel/{TOOL}", f"./{TOOL}", f"{ta}/{TOOL}", f"{tb}/{TOOL}"]) for _ in range(rng.range(1, 3))]
+    return {"section": "lookup", "job_path": job_path, "base_path": base_path, "progs": progs,
+            "other_env": {"C17_A": "x"} if rng.chance(1, 2) else {}}
+
+
+def expected_program(scen, dirs):
+    """first-match rule of execvpe, written down independently of the model: a name with a slash is used as it is, a bare
+    name is tried in every entry of the PATH the COMMAND sees (empty entry = current directory)"""
+    path = scen["job_path"] if scen["job_path"] is not None else scen["base_path"]
+    have = {f"{dirs['A']}/{TOOL}": "A", f"{dirs['B']}/{TOOL}": "B", f"rel/{TOOL}": "R", TOOL: "C", f"./{TOOL}": "C"}
+    out = []
+    for p in scen["progs"]:
+        if "/" in p:
+            out.append(have.get(p))
+            continue
+        for d in path.split(":"):
+            cand = p if d == "" else f"{d}/{p}"
+            if cand in have:
+                out.append(have[cand])
+                break
+        else:
+            out.append(None)
+    return out, have
+
+
+def check_lookup(ctx, n):
+    from molli.pipeline.job import JobInput, JobOutput
+
+    dirs = install_tools(ctx)
+    reqs = []
+    for k in range(n):
+        scen = gen_lookup(ctx.rng, dirs)
+        want, have = expected_program(scen, dirs)
+        if None in want:
+            continue
+        base = ctx.scratch / f"lookup{k}"
+        base.mkdir()
+        setup = (f"PATH=/usr/bin:/bin; mkdir rel; printf '#!/bin/sh\\necho R\\n' > rel/{TOOL}; printf '#!/bin/sh\\necho C\\n' > {TOOL}; "
+                 f"chmod +x rel/{TOOL} {TOOL}")
+        commands = [(shlex.join([shell(), "-c", setup]), None)] + [(f"{p} arg", f"p{i}") for i, p in enumerate(scen["progs"])]
+        envars = dict(scen["other_env"])
+        if scen["job_path"] is not None:
+            envars["PATH"] = scen["job_path"]
+        inp = JobInput("lookup", commands=commands, files={}, return_files=(), envars=envars or None)
+        inp.dump(base / "job.inp")
+        status = run_forked(["_molli_run", str(base / "job.inp"), "-o", str(base / "out"), "-s", str(base / "scr")], base,
+                            {"PATH": scen["base_path"]}, 60)
+        ctx.case(json.dumps({**scen, "job_path": (scen["job_path"] or "").replace(dirs["A"], "<A>").replace(dirs["B"], "<B>") if scen["job_path"] is not None else None,
+                             "base_path": "<A>" if scen["base_path"].startswith(dirs["A"]) else "<B>",
+                             "progs": [p.replace(dirs["A"], "<A>").replace(dirs["B"], "<B>") for p in scen["progs"]]}, sort_keys=True),
+                 nontrivial=scen["job_path"] is not None)
+        ctx.count("lookup-job-PATH:" + ("unset" if scen["job_path"] is None else "empty" if scen["job_path"] == "" else
+                                       "relative-dir-first" if scen["job_path"].startswith("rel") else "empty-entry" if scen["job_path"].startswith(":") or "::" in scen["job_path"] else "absolute-dirs"))
+        for p in scen["progs"]:
+            ctx.count("lookup-program:" + ("bare-name" if "/" not in p else "relative" if not p.startswith("/") else "absolute"))
+        got = None
+        outp = base / "out" / "job.out"
+        if outp.exists():
+            o = JobOutput.load(outp)
+            got = [(o.stdouts or {}).get(f"p{i}", "").strip() or None for i in range(len(scen["progs"]))]
+        if status != 0 or got != want:
+            ctx.violation("C17:command-started-another-program-than-the-job-environment-selects",
+                          f"programs {scen['progs']} with job PATH {scen['job_path']!r} (runner PATH starts with {scen['base_path'].split(':')[0]!r}): "
+                          f"output {got} (exit {status}), the job's environment selects {want}", scen)
+        envtok = "&".join(f"{hx(a)}={hx(b)}" for a, b in envars.items()) or "-"
+        line = f"lookup {hx('PATH')}={hx(scen['base_path'])} {envtok} {','.join(hx(f) for f in have)} " + " ".join(hx(p) for p in scen["progs"])
+        reqs.append((line, got, have, scen))
+    outs = ctx.driver([r[0] for r in reqs])
+    for (line, got, have, scen), mo in zip(reqs, outs):
+        sel = [None if t == "none" else have.get(bytes.fromhex(t).decode()) for t in mo.split(" ")]
+        if sel != got:
+            ctx.disagree("the program started differs from the model's lookup", scen, got, sel)
+    ctx.extra_cov["program_lookups"] = len(reqs)
+
+
+# --------------------------------------------------------------------------------------
+# Part 4: the job-preparing methods of the bundled drivers
+# --------------------------------------------------------------------------------------
+def parse_cli(tokens, valued):
+    """(positionals, flags, options) of a command line; `valued` = options that take one value"""
+    pos, flags, opts = [], [], {}
+    i = 0
+    while i < len(tokens):
+        t = tokens[i]
+        if t in valued and i + 1 < len(tokens):
+            opts[t] = tokens[i + 1]
+            i += 2
+        elif t.startswith("-"):
+            flags.append(t)
+            i += 1
+        else:
+            pos.append(t)
+            i += 1
+    return pos, sorted(flags), opts
+
+
+def check_drivers(ctx):
+    """Every job-preparing method of XTBDriver, CrestDriver and ORCADriver.basic_calc_m over a grid of arguments.  The reference is
+    hand-written from what the arguments MEAN (net charge and number of unpaired electrons = multiplicity − 1 as asked for, else the
+    molecule's; every option where its program expects it; every input text in a file the command names) — not generated
+    from the source, so that it does not follow an edit of the source."""
+    import molli as ml
+    from molli.pipeline.crest import CrestDriver
+    from molli.pipeline.orca import ORCADriver
+    from molli.pipeline.xtb import XTBDriver
+
+    rng = ctx.rng
+    bad = []
+
+    def expect(what, got, want, args):
+        if got != want:
+            bad.append((what, got, want, args))
+
+    n = 0
+    for mc, mm in ((0, 1), (1, 2), (-1, 1), (0, 3), (2, 1)):
+        M = ml.Molecule(["C", "H", "H", "H", "O"], name=f"mol_{mc}_{mm}", charge=mc, mult=mm)
+        M.coords = [[0.0, 0.0, 0.0], [1.0, 0.0, 0.0], [0.0, 1.0, 0.0], [0.0, 0.0, 1.0], [-1.0, -1.0, 0.3]]
+        xyz = M.dumps_xyz().encode()
+        for charge in (None, 0, 2, -1):
+            for mult in (None, 1, 3):
+                nprocs = rng.choice([1, 4, 16])
+                exe = rng.choice(["/opt/x/prog", "prog-6.5"])
+                want_c = mc if charge is None else charge
+                want_uhf = (mm if mult is None else mult) - 1
+                method = rng.choice(["gfn2", "gff", "gfn1"])
+                acc = rng.choice([0.5, 0.05, 1.0])
+                maxiter = rng.choice([500, 17])
+                xtbinp = rng.choice(["", "$wall\n potential=logfermi\n$end\n"])
+                misc = rng.choice([None, "--alpb water", "--verbose"])
+                crit = rng.choice(["loose", "tight"])
+                x = XTBDriver(executable=exe, nprocs=nprocs, check_exe=False, find=False)
+                common = dict(charge=charge, mult=mult, method=method, xtbinp=xtbinp, maxiter=maxiter, misc=misc)
+                jobs = [("XTBDriver.optimize_m", x.optimize_m.prepare(M, crit=crit, **common), ("xtbopt.xyz",), {"--opt": crit}, []),
+                        ("XTBDriver.energy_m", x.energy_m.prepare(M, accuracy=acc, **common), (), {"--acc": f"{acc:0.2f}"}, []),
+                        ("XTBDriver.atom_properties_m", x.atom_properties_m.prepare(M, accuracy=acc, **common), (), {"--acc": f"{acc:0.2f}"}, ["--vfukui"])]
+                for name, inp, rf, extra, xflags in jobs:
+                    n += 1
+                    args = {"method": name, "mol_charge": mc, "mol_mult": mm, **common, "nprocs": nprocs}
+                    toks = shlex.split(inp.commands[0][0])
+                    pos, flags, opts = parse_cli(toks[1:], {"--charge", "--uhf", "--iterations", "--input", "-P", "--acc", "--opt", "--alpb"})
+                    expect(f"{name}: program", toks[0], exe, args)
+                    expect(f"{name}: structure file", pos, ["input.xyz"], args)
+                    want_opts = {"--charge": str(want_c), "--uhf": str(want_uhf), "--iterations": str(maxiter), "-P": str(nprocs), **extra}
+                    if xtbinp:
+                        want_opts["--input"] = "param.inp"
+                    if misc == "--alpb water":
+                        want_opts["--alpb"] = "water"
+                    expect(f"{name}: options", opts, want_opts, args)
+                    expect(f"{name}: flags", flags, sorted([f"--{method}"] + xflags + (["--verbose"] if misc == "--verbose" else [])), args)
+                    want_files = {"input.xyz": xyz, **({"param.inp": xtbinp.encode()} if xtbinp else {})}
+                    expect(f"{name}: input files", {k: bytes(v) if not isinstance(v, str) else v.encode() for k, v in (inp.files or {}).items()}, want_files, args)
+                    expect(f"{name}: requested files", tuple(inp.return_files or ()), rf, args)
+                    expect(f"{name}: command name", inp.commands[0][1], "xtb", args)
+                # scan_dihedral
+                n += 1
+                steps, fc, rng_deg = rng.choice([72, 12]), rng.choice([0.5, 0.05]), rng.choice([(0.0, 360.0), (-30.0, 60.0)])
+                inp = x.scan_dihedral.prepare(M, (1, 0, 4, 2), method=method, accuracy=acc, range_deg=rng_deg, n_steps=steps,
+                                               maxiter_per_step=maxiter, force_const=fc, charge=charge, mult=mult)
+                args = {"method": "XTBDriver.scan_dihedral", "mol_charge": mc, "mol_mult": mm, "charge": charge, "mult": mult}
+                toks = shlex.split(inp.commands[0][0])
+                pos, flags, opts = parse_cli(toks[1:], {"--charge", "--uhf", "--input", "-P", "--acc"})
+                expect("scan_dihedral: program / structure", [toks[0]] + pos, [exe, "mol.xyz"], args)
+                expect("scan_dihedral: options", opts, {"--charge": str(want_c), "--uhf": str(want_uhf), "--acc": f"{acc:0.2f}", "--input": "scan.inp", "-P": str(nprocs)}, args)
+                expect("scan_dihedral: flags", flags, sorted([f"--{method}", "--opt"]), args)
+                scan = bytes(inp.files["scan.inp"]).decode()
+                import math
+                d0 = math.degrees(M.dihedral(1, 0, 4, 2)) + rng_deg[0]
+                ok = (f"force constant={fc}" in scan and "dihedral: 2,1,5,3," in scan and f"maxcycle={maxiter}" in scan and
+                      any(l.strip().startswith("1:") and abs(float(l.split(":")[1].split(",")[0]) - d0) < 1e-6 and
+                          abs(float(l.split(",")[1]) - (d0 + rng_deg[1])) < 1e-6 and l.strip().endswith(f",{steps}") for l in scan.splitlines()))
+                expect("scan_dihedral: scan.inp reflects atoms / range / steps / force constant", ok, True, args)
+                expect("scan_dihedral: files", sorted(inp.files), ["mol.xyz", "scan.inp"], args)
+                expect("scan_dihedral: structure file content", bytes(inp.files["mol.xyz"]), xyz, args)
+                # crest
+                c = CrestDriver(executable=exe, nprocs=nprocs, check_exe=False, find=False)
+                ewin, temp, chk = rng.choice([None, 6.0]), rng.choice([None, 298.15]), rng.choice([None, True])
+                ens = ml.ConformerEnsemble(M, n_conformers=2)
+                ens.coords = [M.coords, M.coords + 0.1]
+                for name, inp, first, rf in (("CrestDriver.conformer_search", c.conformer_search.prepare(M, charge=charge, mult=mult, method=method, ewin=ewin, temp=temp, chk_topo=chk, misc=misc), ["input.xyz"], ["crest_conformers.xyz"]),
+                                             ("CrestDriver.conformer_screen", c.conformer_screen.prepare(ens, charge=charge, mult=mult, method=method, ewin=ewin, temp=temp, chk_topo=chk, misc=misc), ["input.xyz"], ["crest_ensemble.xyz"])):
+                    n += 1
+                    args = {"method": name, "mol_charge": mc, "mol_mult": mm, "charge": charge, "mult": mult, "ewin": ewin, "temp": temp, "chk_topo": chk, "misc": misc}
+                    toks = shlex.split(inp.commands[0][0])
+                    pos, flags, opts = parse_cli(toks[1:], {"-T", "-chrg", "-uhf", "-ewin", "-temp", "--alpb"})
+                    expect(f"{name}: program / structure", [toks[0]] + pos, [exe] + first, args)
+                    want_opts = {"-T": str(nprocs), "-chrg": str(want_c), "-uhf": str(want_uhf)}
+                    if ewin is not None:
+                        want_opts["-ewin"] = f"{ewin:0.4f}"
+                    if temp is not None:
+                        want_opts["-temp"] = f"{temp:0.4f}"
+                    if misc == "--alpb water":
+                        want_opts["--alpb"] = "water"
+                    expect(f"{name}: options", opts, want_opts, args)
+                    expect(f"{name}: flags", flags, sorted([f"-{method}"] + (["-screen"] if "screen" in name else []) + ([] if chk else ["--noreftopo"]) + (["--verbose"] if misc == "--verbose" else [])), args)
+                    expect(f"{name}: requested files", list(inp.return_files or ()), rf, args)
+                # orca
+                n += 1
+                mem = rng.choice([8000, 3000])
+                o = ORCADriver(executable=exe, nprocs=nprocs, memory=mem, check_exe=False, find=False)
+                kw, suffix = rng.choice(["rks b97-3c energy", "uks pbe0 def2-svp opt"]), rng.choice([None, "--oversubscribe"])
+                inp = o.basic_calc_m.prepare(M, keywords=kw, charge=charge, mult=mult, orca_suffix=suffix)
+                args = {"method": "ORCADriver.basic_calc_m", "mol_charge": mc, "mol_mult": mm, "charge": charge, "mult": mult}
+                text = bytes(inp.files["m_orca.inp"]).decode()
+                lines = [l.strip() for l in text.splitlines() if l.strip()]
+                expect("basic_calc_m: command", shlex.split(inp.commands[0][0]), [exe, "m_orca.inp"] + ([suffix] if suffix else []), args)
+                expect("basic_calc_m: %pal / %maxcore / keywords", [l for l in lines if l.startswith(("%pal", "%maxcore", "!"))],
+                       [f"%pal nprocs {nprocs} end", f"%maxcore {mem // nprocs}", f"! {kw}"], args)
+                expect("basic_calc_m: *xyz charge mult", [l for l in lines if l.startswith("*xyz")], [f"*xyz {want_c} {mm if mult is None else mult}"], args)
+    ctx.count("driver-method-preparations", n)
+    ctx.case(f"driver-grid:{n}", nontrivial=True)
+    seen = set()
+    for what, got, want, args in bad:
+        cls = what + ("/explicit-zero-charge" if args.get("charge") == 0 and args.get("mol_charge") and "option" in what or (args.get("charge") == 0 and args.get("mol_charge") and "*xyz" in what) else "")
+        if cls in seen:
+            continue
+        seen.add(cls)
+        ctx.violation("C17:driver-jobinput-does-not-reflect-arguments", f"{what}: prepared {got!r}, the arguments ask for {want!r} ({args})",
+                      {"section": "driver-method", "what": what, "args": args, "prepared": repr(got), "asked": repr(want)})
+    ctx.extra_cov["driver_method_mismatches"] = len(bad)
+
+
 def load_corpus():
     d = common.VERIF / "corpus" / "C17"
     out = []
@@ -783,10 +1058,16 @@ def run(ctx):
                 "the PATH lookup on (fake programs first on the PATH) or off, in every creation / use order; "
                 "non-trivial = the instances differ. Part 2: command lists of length 1..4, first failure at every position or none, "
                 "failures by exit status {1,2,3,127,255} or by signal {KILL,TERM,SEGV,INT}, named/unnamed commands, 0..3 text/binary input files (empty, NUL, 0xFF, CRLF, UTF-8), "
-                "scripted writes/copies/removals/environment dumps, return_files = subset of created, input, capture and missing "
+                "scripted writes/copies/removals/environment dumps (also into sub-directories, equal base names in different directories), "
+                "return_files = subset of created, input, capture and missing paths in several spellings (`sub/r.bin`, `./x`, `a//b`) "
                 "names / empty / None, environment overrides in job and runner, pre-populated scratch directory, every path argument "
                 "(input file, -o, -s) absolute or relative, runner launched from the job's directory, a sub-directory or an unrelated one; non-trivial = more "
-                "than one command or a requested file. Distinct by canonical scenario.")
+                "than one command or a requested file. Part 3: commands given as a bare program name, a relative or an absolute path, with the same "
+                "bare name present in two absolute directories, a relative directory and the private directory itself; the job's envars set PATH "
+                "(several orders, a relative first entry, empty entries, empty PATH, a single directory) or leave it alone while the runner's own PATH "
+                "prefers the other directory. Part 4: every job-preparing method of XTBDriver (optimize_m, energy_m, atom_properties_m, scan_dihedral), "
+                "CrestDriver (conformer_search, conformer_screen) and ORCADriver.basic_calc_m over molecule charge/multiplicity x explicit charge "
+                "(None, 0, 2, -1) x explicit multiplicity (None, 1, 3) with random options. Distinct by canonical scenario.")
     ctx.assumptions += [
         "the shell, subprocess and TemporaryDirectory are environment: commands are `sh -c` scripts generated from the scripted outcomes",
         "stdout/stderr texts are valid UTF-8 without NUL or CR (run_local reads the capture files in text mode)",
@@ -803,6 +1084,8 @@ def run(ctx):
     check_binding(ctx)
     q = ctx.quick()
     check_running(ctx, 120 if q else 2500, 4 if q else 40, corpus)
+    check_lookup(ctx, 24 if q else 300)
+    check_drivers(ctx)
 
 
 def replay(ctx, path):
